@@ -4,21 +4,26 @@ package operator
 
 import (
 	"context"
+	"encoding/json"
 	"fmt"
 	"net"
 	"os"
 	"strings"
 	"testing"
+	"time"
 
 	appsv1 "k8s.io/api/apps/v1"
 	corev1 "k8s.io/api/core/v1"
+	clientv3 "go.etcd.io/etcd/client/v3"
 	"pgregory.net/rapid"
 	"sigs.k8s.io/controller-runtime/pkg/client"
 	"sigs.k8s.io/controller-runtime/pkg/client/fake"
 	"verif.local/vfkit"
 
 	kafscalev1alpha1 "github.com/KafScale/platform/api/v1alpha1"
+	"github.com/KafScale/platform/internal/testutil"
 	"github.com/KafScale/platform/pkg/metadata"
+	"github.com/KafScale/platform/pkg/protocol"
 )
 
 // C39: (a) BuildClusterMetadata lists one broker per broker replica of the spec, broker i
@@ -60,44 +65,133 @@ func c39DerivedLen(cluster *kafscalev1alpha1.KafscaleCluster) int {
 	return len(defaultSnapshotBucketPrefix) + 1 + len(cluster.Namespace) + 1 + len(cluster.Name)
 }
 
-// c39Check runs the oracle on one cluster resource + topic set; "" = property holds.
-// skipLen: do not assert the upper length bound of the bucket (listed finding).
-func c39Check(ctx context.Context, cluster *kafscalev1alpha1.KafscaleCluster, topics []kafscalev1alpha1.KafscaleTopic, skipLen bool) (problem string, info map[string]any) {
-	info = map[string]any{}
+// c39PodAddrs renders the broker StatefulSet and headless Service with the reconciler's own
+// code into a fake API server and derives the stable pod addresses from those objects.
+func c39PodAddrs(ctx context.Context, cluster *kafscalev1alpha1.KafscaleCluster) (podAddr func(int32) string, stsReplicas *int32, problem string) {
 	scheme, err := c42Scheme()
 	if err != nil {
-		return "VF-INCONCLUSIVE: scheme: " + err.Error(), info
+		return nil, nil, "VF-INCONCLUSIVE: scheme: " + err.Error()
 	}
-	// --- what the operator deploys
 	c := fake.NewClientBuilder().WithScheme(scheme).WithObjects(cluster.DeepCopy()).Build()
 	r := &ClusterReconciler{Client: c, Scheme: scheme}
 	if err := r.reconcileBrokerDeployment(ctx, cluster, []string{"http://etcd:2379"}); err != nil {
-		return "VF-INCONCLUSIVE: reconcileBrokerDeployment: " + err.Error(), info
+		return nil, nil, "VF-INCONCLUSIVE: reconcileBrokerDeployment: " + err.Error()
 	}
 	if err := r.reconcileBrokerHeadlessService(ctx, cluster); err != nil {
-		return "VF-INCONCLUSIVE: reconcileBrokerHeadlessService: " + err.Error(), info
+		return nil, nil, "VF-INCONCLUSIVE: reconcileBrokerHeadlessService: " + err.Error()
 	}
 	var stsList appsv1.StatefulSetList
 	if err := c.List(ctx, &stsList, client.InNamespace(cluster.Namespace)); err != nil || len(stsList.Items) != 1 {
-		return fmt.Sprintf("VF-INCONCLUSIVE: expected exactly one broker StatefulSet, got %d (%v)", len(stsList.Items), err), info
+		return nil, nil, fmt.Sprintf("VF-INCONCLUSIVE: expected exactly one broker StatefulSet, got %d (%v)", len(stsList.Items), err)
 	}
 	sts := stsList.Items[0]
 	var svc corev1.Service
 	if err := c.Get(ctx, client.ObjectKey{Namespace: sts.Namespace, Name: sts.Spec.ServiceName}, &svc); err != nil {
-		return fmt.Sprintf("broker StatefulSet %s is governed by service %q which the operator does not render: %v", sts.Name, sts.Spec.ServiceName, err), info
+		return nil, nil, fmt.Sprintf("broker StatefulSet %s is governed by service %q which the operator does not render: %v", sts.Name, sts.Spec.ServiceName, err)
 	}
 	if svc.Spec.ClusterIP != corev1.ClusterIPNone {
-		return fmt.Sprintf("governing service %s is not headless (clusterIP %q): pods get no stable DNS names", svc.Name, svc.Spec.ClusterIP), info
+		return nil, nil, fmt.Sprintf("governing service %s is not headless (clusterIP %q): pods get no stable DNS names", svc.Name, svc.Spec.ClusterIP)
 	}
 	for k, v := range svc.Spec.Selector {
 		if sts.Spec.Template.Labels[k] != v {
-			return fmt.Sprintf("headless service selector %v does not select the broker pods (labels %v)", svc.Spec.Selector, sts.Spec.Template.Labels), info
+			return nil, nil, fmt.Sprintf("headless service selector %v does not select the broker pods (labels %v)", svc.Spec.Selector, sts.Spec.Template.Labels)
 		}
 	}
-	podAddr := func(i int32) string {
+	return func(i int32) string {
 		return fmt.Sprintf("%s-%d.%s.%s.svc.cluster.local", sts.Name, i, sts.Spec.ServiceName, sts.Namespace)
-	}
+	}, sts.Spec.Replicas, ""
+}
 
+// c39CheckPublished asserts what C39 states on a published metadata document: one broker per
+// spec replica, broker i at pod i's stable address (or the advertised host for a single
+// replica); every partition leader of EVERY listed topic is one of those brokers; partition
+// ids of every listed topic are exactly 0..k-1. For the declared topics k == declared
+// (exactCount: freshly rendered) or k >= declared (republished over an existing snapshot:
+// partition counts never shrink). n >= 1 is required.
+func c39CheckPublished(meta metadata.ClusterMetadata, cluster *kafscalev1alpha1.KafscaleCluster, podAddr func(int32) string, declared []kafscalev1alpha1.KafscaleTopic, exactCount bool, info map[string]any) string {
+	n := *cluster.Spec.Brokers.Replicas
+	if int32(len(meta.Brokers)) != n {
+		return fmt.Sprintf("spec has %d broker replicas but the metadata lists %d brokers", n, len(meta.Brokers))
+	}
+	byID := map[int32]string{}
+	for _, b := range meta.Brokers {
+		if _, dup := byID[b.NodeID]; dup {
+			return fmt.Sprintf("metadata lists broker id %d twice", b.NodeID)
+		}
+		byID[b.NodeID] = b.Host
+	}
+	adv := strings.TrimSpace(cluster.Spec.Brokers.AdvertisedHost)
+	for i := int32(0); i < n; i++ {
+		host, ok := byID[i]
+		if !ok {
+			return fmt.Sprintf("metadata has no broker for replica (pod ordinal) %d; ids: %v", i, byID)
+		}
+		if host == podAddr(i) {
+			continue
+		}
+		if n == 1 && adv != "" && host == adv {
+			info["advertised"] = true
+			continue
+		}
+		return fmt.Sprintf("broker %d is published at %q, but pod %d's stable address is %q (advertised host %q, replicas %d)", i, host, i, podAddr(i), adv, n)
+	}
+	ids := func(tp protocol.MetadataTopic) []int32 {
+		out := make([]int32, 0, len(tp.Partitions))
+		for _, p := range tp.Partitions {
+			out = append(out, p.Partition)
+		}
+		return out
+	}
+	for _, tp := range meta.Topics {
+		name := "<nil>"
+		if tp.Topic != nil {
+			name = *tp.Topic
+		}
+		seen := map[int32]bool{}
+		for _, p := range tp.Partitions {
+			if _, ok := byID[p.Leader]; !ok {
+				return fmt.Sprintf("topic %s partition %d has leader %d which is not one of the %d published brokers", name, p.Partition, p.Leader, n)
+			}
+			if seen[p.Partition] {
+				return fmt.Sprintf("topic %s lists partition %d twice: %v", name, p.Partition, ids(tp))
+			}
+			seen[p.Partition] = true
+		}
+		for i := int32(0); i < int32(len(tp.Partitions)); i++ {
+			if !seen[i] {
+				return fmt.Sprintf("topic %s has %d partitions but no partition numbered %d (gap): %v", name, len(tp.Partitions), i, ids(tp))
+			}
+		}
+	}
+	for _, want := range declared {
+		found := false
+		for _, tp := range meta.Topics {
+			if tp.Topic != nil && *tp.Topic == want.Name {
+				found = true
+				got := int32(len(tp.Partitions))
+				if exactCount && got != want.Spec.Partitions {
+					return fmt.Sprintf("topic %s is declared with %d partitions but published with %d", want.Name, want.Spec.Partitions, got)
+				}
+				if !exactCount && got < want.Spec.Partitions {
+					return fmt.Sprintf("topic %s is declared with %d partitions but published with only %d", want.Name, want.Spec.Partitions, got)
+				}
+			}
+		}
+		if !found {
+			info["topic_missing"] = want.Name // statement is silent: statistic only
+		}
+	}
+	return ""
+}
+
+// c39Check runs the oracle on one cluster resource + topic set; "" = property holds.
+// skipLen: do not assert the upper length bound of the bucket (listed finding).
+func c39Check(ctx context.Context, cluster *kafscalev1alpha1.KafscaleCluster, topics []kafscalev1alpha1.KafscaleTopic, skipLen bool) (problem string, info map[string]any) {
+	info = map[string]any{}
+	podAddr, stsReplicas, problem := c39PodAddrs(ctx, cluster)
+	if problem != "" {
+		return problem, info
+	}
 	// --- what the operator publishes (Publish feeds the topics whose clusterRef matches, same namespace)
 	var mine []kafscalev1alpha1.KafscaleTopic
 	for _, tp := range topics {
@@ -105,72 +199,17 @@ func c39Check(ctx context.Context, cluster *kafscalev1alpha1.KafscaleCluster, to
 			mine = append(mine, tp)
 		}
 	}
-	var meta metadata.ClusterMetadata
-	meta = BuildClusterMetadata(cluster, mine)
+	meta := BuildClusterMetadata(cluster, mine)
 	info["brokers"] = len(meta.Brokers)
 	info["topics"] = len(meta.Topics)
 
 	specReplicas := cluster.Spec.Brokers.Replicas
 	if specReplicas != nil && *specReplicas >= 1 {
-		n := *specReplicas
-		if sts.Spec.Replicas == nil || *sts.Spec.Replicas != n {
-			return fmt.Sprintf("spec asks for %d broker replicas but the StatefulSet is rendered with %v", n, sts.Spec.Replicas), info
+		if stsReplicas == nil || *stsReplicas != *specReplicas {
+			return fmt.Sprintf("spec asks for %d broker replicas but the StatefulSet is rendered with %v", *specReplicas, stsReplicas), info
 		}
-		if int32(len(meta.Brokers)) != n {
-			return fmt.Sprintf("spec has %d broker replicas but the metadata lists %d brokers", n, len(meta.Brokers)), info
-		}
-		byID := map[int32]string{}
-		for _, b := range meta.Brokers {
-			if _, dup := byID[b.NodeID]; dup {
-				return fmt.Sprintf("metadata lists broker id %d twice", b.NodeID), info
-			}
-			byID[b.NodeID] = b.Host
-		}
-		adv := strings.TrimSpace(cluster.Spec.Brokers.AdvertisedHost)
-		for i := int32(0); i < n; i++ {
-			host, ok := byID[i]
-			if !ok {
-				return fmt.Sprintf("metadata has no broker for replica (pod ordinal) %d; ids: %v", i, byID), info
-			}
-			if host == podAddr(i) {
-				continue
-			}
-			if n == 1 && adv != "" && host == adv {
-				info["advertised"] = true
-				continue
-			}
-			return fmt.Sprintf("broker %d is published at %q, but pod %d's stable address is %q (advertised host %q, replicas %d)", i, host, i, podAddr(i), adv, n), info
-		}
-		for _, tp := range meta.Topics {
-			seen := map[int32]bool{}
-			for _, p := range tp.Partitions {
-				if _, ok := byID[p.Leader]; !ok {
-					return fmt.Sprintf("topic %s partition %d has leader %d which is not one of the %d published brokers", *tp.Topic, p.Partition, p.Leader, n), info
-				}
-				if seen[p.Partition] {
-					return fmt.Sprintf("topic %s lists partition %d twice", *tp.Topic, p.Partition), info
-				}
-				seen[p.Partition] = true
-			}
-			for i := int32(0); i < int32(len(tp.Partitions)); i++ {
-				if !seen[i] {
-					return fmt.Sprintf("topic %s has %d partitions but no partition numbered %d (gap)", *tp.Topic, len(tp.Partitions), i), info
-				}
-			}
-		}
-		for _, want := range mine {
-			found := false
-			for _, tp := range meta.Topics {
-				if *tp.Topic == want.Name {
-					found = true
-					if int32(len(tp.Partitions)) != want.Spec.Partitions {
-						return fmt.Sprintf("topic %s is declared with %d partitions but published with %d", want.Name, want.Spec.Partitions, len(tp.Partitions)), info
-					}
-				}
-			}
-			if !found {
-				info["topic_missing"] = want.Name // statement is silent: statistic only
-			}
+		if p := c39CheckPublished(meta, cluster, podAddr, mine, true, info); p != "" {
+			return p, info
 		}
 	} else {
 		info["replicas_unset"] = true // below the CRD minimum / defaulted by the API server: crash-freedom only
@@ -250,17 +289,74 @@ func TestVF_C39_Witness(t *testing.T) {
 	st := vfkit.NewStats("C39", "witness")
 	defer st.Flush()
 	_ = os.Unsetenv(operatorEtcdSnapshotBucketEnv)
+	_ = os.Setenv(operatorEtcdSilenceLogsEnv, "true")
+	ctx := context.Background()
 	st.Eval()
 	one := int32(1)
 	cluster := &kafscalev1alpha1.KafscaleCluster{}
 	cluster.Namespace = "production-streaming-platform" // 29 characters
 	cluster.Name = "kafscale-orders-cluster"           // 23 characters
 	cluster.Spec.Brokers.Replicas = &one
-	problem, info := c39Check(context.Background(), cluster, nil, false)
+	problem, info := c39Check(ctx, cluster, nil, false)
 	still := strings.Contains(problem, "not a valid S3 bucket name")
 	st.KnownResult(c39FindBucketLen, still, fmt.Sprintf("namespace %q + cluster %q -> bucket %q (%d chars): %s", cluster.Namespace, cluster.Name, info["bucket"], len(fmt.Sprint(info["bucket"])), problem))
 	if problem != "" && !still {
 		t.Fatalf("witness failed for another reason: %s", problem)
 	}
 	t.Logf("%s: stillFails=%v %s", c39FindBucketLen, still, problem)
+
+	// scale-down after a topic resource was deleted: the topic is carried over from the existing
+	// snapshot with the leaders it had under the old replica count
+	st.Eval()
+	scheme, err := c42Scheme()
+	if err != nil {
+		fmt.Println("VF-INCONCLUSIVE: scheme:", err)
+		t.Fatalf("VF-INCONCLUSIVE: scheme: %v", err)
+	}
+	endpoints := testutil.StartEmbeddedEtcd(t)
+	two := int32(2)
+	demo := &kafscalev1alpha1.KafscaleCluster{}
+	demo.Namespace, demo.Name = "default", "demo"
+	demo.Spec.Brokers.Replicas = &two
+	orders := &kafscalev1alpha1.KafscaleTopic{}
+	orders.Namespace, orders.Name = "default", "orders"
+	orders.Spec.ClusterRef, orders.Spec.Partitions = "demo", 2
+	c1 := fake.NewClientBuilder().WithScheme(scheme).WithObjects(demo.DeepCopy(), orders).Build()
+	if err := NewSnapshotPublisher(c1).Publish(ctx, demo, endpoints); err != nil {
+		fmt.Println("VF-INCONCLUSIVE: publish:", err)
+		t.Fatalf("VF-INCONCLUSIVE: publish: %v", err)
+	}
+	scaled := demo.DeepCopy()
+	scaled.Spec.Brokers.Replicas = &one
+	c2 := fake.NewClientBuilder().WithScheme(scheme).WithObjects(scaled.DeepCopy()).Build() // the orders resource is gone
+	if err := NewSnapshotPublisher(c2).Publish(ctx, scaled, endpoints); err != nil {
+		fmt.Println("VF-INCONCLUSIVE: publish:", err)
+		t.Fatalf("VF-INCONCLUSIVE: publish: %v", err)
+	}
+	cli, err := clientv3.New(clientv3.Config{Endpoints: endpoints, DialTimeout: 5 * time.Second})
+	if err != nil {
+		t.Fatalf("VF-INCONCLUSIVE: etcd client: %v", err)
+	}
+	defer func() { _ = cli.Close() }()
+	gctx, cancel := context.WithTimeout(ctx, 10*time.Second)
+	defer cancel()
+	resp, err := cli.Get(gctx, "/kafscale/metadata/snapshot")
+	if err != nil || len(resp.Kvs) == 0 {
+		t.Fatalf("VF-INCONCLUSIVE: read snapshot: %v", err)
+	}
+	var loaded metadata.ClusterMetadata
+	if err := json.Unmarshal(resp.Kvs[0].Value, &loaded); err != nil {
+		t.Fatalf("published snapshot does not decode: %v", err)
+	}
+	podAddr, _, p := c39PodAddrs(ctx, scaled)
+	if p != "" {
+		t.Fatalf("%s", p)
+	}
+	problem = c39CheckPublished(loaded, scaled, podAddr, nil, false, map[string]any{})
+	still = strings.Contains(problem, "which is not one of the")
+	st.KnownResult(c39FindStaleLeader, still, "publish(replicas=2, topic orders x2) ; orders resource deleted ; publish(replicas=1): "+problem)
+	if problem != "" && !still {
+		t.Fatalf("scale-down witness failed for another reason: %s", problem)
+	}
+	t.Logf("%s: stillFails=%v %s", c39FindStaleLeader, still, problem)
 }
